@@ -675,6 +675,105 @@ fn threads_smoke(ctx: &Ctx, base: &Snapshot) -> u64 {
     n
 }
 
+//
+// The method constructors and the caller's own Accept-Encoding: the announcement depends on the
+// compression setting only (not on the method), and with compression off a header the caller set
+// himself reaches the wire untouched.
+//
+const METHODS: [&str; 8] = ["GET", "HEAD", "POST", "PUT", "DELETE", "OPTIONS", "PATCH", "TRACE"];
+
+fn method_cells(ctx: &Ctx) -> u64 {
+    let mut n = 0;
+    for (mi, m) in METHODS.iter().enumerate() {
+        for sess_c in 0..3u8 {
+            for req_c in 0..3u8 {
+                for caller in 0..4u8 {
+                    for via_send in [false, true] {
+                        n += 1;
+                        let mut s = attohttpc::Session::new();
+                        if sess_c != 0 {
+                            s.allow_compression(sess_c == 1);
+                        }
+                        let mut own: Vec<&str> = Vec::new();
+                        if caller == 1 || caller == 3 {
+                            s.header("Accept-Encoding", "br");
+                            own.push("br");
+                        }
+                        let mut rb = match mi {
+                            0 => s.get(URL),
+                            1 => s.head(URL),
+                            2 => s.post(URL),
+                            3 => s.put(URL),
+                            4 => s.delete(URL),
+                            5 => s.options(URL),
+                            6 => s.patch(URL),
+                            _ => s.trace(URL),
+                        };
+                        if req_c != 0 {
+                            rb = rb.allow_compression(req_c == 1);
+                        }
+                        if caller == 2 {
+                            rb = rb.header("accept-encoding", "identity");
+                            own = vec!["identity"];
+                        }
+                        if caller == 3 {
+                            rb = rb.header_append("ACCEPT-ENCODING", "zstd");
+                            own.push("zstd");
+                        }
+                        let allowed = match (req_c, sess_c) {
+                            (1, _) => true,
+                            (2, _) => false,
+                            (_, 2) => false,
+                            _ => true,
+                        };
+                        let (got_method, ae): (String, Vec<String>) = if via_send {
+                            let world = World::install(false, |_, _| Ok(Script::plain(b"HTTP/1.1 200 OK\r\nContent-Length: 0\r\n\r\n".to_vec())));
+                            let res = guarded(|| rb.send().map(|r| r.status().as_u16()));
+                            let conns = world.conns.lock().unwrap();
+                            let w = conns.first().map(|c| c.shared.lock().unwrap().written.clone()).unwrap_or_default();
+                            match parse_single_request(&w) {
+                                Ok(req) => (req.method.clone(), req.header_all("accept-encoding").iter().map(|v| String::from_utf8_lossy(v).into_owned()).collect()),
+                                Err(e) => {
+                                    ctx.violation("C16:method-cells:request-not-sent", format!("{m} request: {res:?}, written bytes do not parse: {e}"), json!({"engine": "c16", "method_cells": true}), n);
+                                    continue;
+                                }
+                            }
+                        } else {
+                            match guarded(|| rb.try_prepare()) {
+                                Ok(Ok(p)) => (p.method().as_str().to_string(), p.headers().get_all("accept-encoding").iter().map(|v| String::from_utf8_lossy(v.as_bytes()).into_owned()).collect()),
+                                other => {
+                                    ctx.violation("C16:method-cells:prepare-failed", format!("{m} request: {:?}", other.map(|r| r.map(|_| ()))), json!({"engine": "c16", "method_cells": true}), n);
+                                    continue;
+                                }
+                            }
+                        };
+                        let desc = format!(
+                            "{m} request ({}), session allow_compression {}, request allow_compression {}, caller's own Accept-Encoding values {own:?}: Accept-Encoding on the request is {ae:?}",
+                            if via_send { "sent" } else { "prepared" },
+                            ["untouched", "true", "false"][sess_c as usize],
+                            ["untouched", "true", "false"][req_c as usize]
+                        );
+                        if got_method != *m {
+                            ctx.violation("C16:method-cells:method", format!("{desc}; method on the request is {got_method}"), json!({"engine": "c16", "method_cells": true}), n);
+                        }
+                        let announces = ae.iter().any(|v| v.contains("gzip") && v.contains("deflate"));
+                        if allowed && !announces {
+                            ctx.violation("C16:accept-encoding-not-announced", format!("{desc}; compression is allowed, gzip/deflate must be announced"), json!({"engine": "c16", "method_cells": true}), n);
+                        }
+                        if !allowed && ae.iter().any(|v| v.contains("gzip") || v.contains("deflate")) {
+                            ctx.violation("C16:accept-encoding-announced-although-off", desc.clone(), json!({"engine": "c16", "method_cells": true}), n);
+                        }
+                        if !allowed && ae != own {
+                            ctx.violation("C16:caller-header-lost", format!("{desc}; compression is off, the caller's own values must reach the request unchanged"), json!({"engine": "c16", "method_cells": true}), n);
+                        }
+                    }
+                }
+            }
+        }
+    }
+    n
+}
+
 fn plans(tier: Tier) -> Vec<Plan> {
     let mut v = Vec::new();
     let d = tier.pick(7, 8);
@@ -710,6 +809,8 @@ pub fn c16(ctx: &Ctx) -> Report {
         tot.sends += s.sends;
     }
     let smoke = threads_smoke(ctx, &base);
+    let mcells = method_cells(ctx);
+    tot.executions += mcells;
     ctx.sample(json!({"plan": ps[0], "history": [Op::NewSession, Op::Set(0, Field::MaxRedirections, 1), Op::NewBuilder(0), Op::Set(1, Field::MaxRedirections, 2), Op::Clone(0), Op::Drop(0)]}));
     ctx.sample(json!({"plan": ps[ps.len() - 1]}));
     // the crate must not contain unsafe code outside cfg(windows): the argument that threads can
@@ -739,11 +840,12 @@ pub fn c16(ctx: &Ctx) -> Report {
     rep.set("requests_prepared_or_sent", tot.sends);
     rep.set("plans", ps.len() as u64);
     rep.set("threads_smoke_operations", smoke);
+    rep.set("method_and_accept_encoding_cells", mcells);
     rep.set("unsafe_blocks_in_repo_src", json!(unsafe_lines));
     rep.set("exhaustive", true);
     rep.set(
         "rule",
-        "breadth-first search over API histories {Session::new, clone, every setter with two values, header/header_append with colliding names, session.get(), the same setters on the request, drop}, live objects <= 4 (3 for header plans), one plan per settings field (all histories up to the depth bound), header plans, and a mixed plan over all fields; state = reference value of every live object + partition of the objects by Arc identity; in every state every live object's settings snapshot is compared with the reference, and every live request is prepared and sent through a scripted world that makes each setting visible (redirect bound, header limit, proxy dialled, Accept-Encoding, default charset, timeouts handed to the dialler)",
+        "breadth-first search over API histories {Session::new, clone, every setter with two values, header/header_append with colliding names, session.get(), the same setters on the request, drop}, live objects <= 4 (3 for header plans), one plan per settings field (all histories up to the depth bound), header plans, and a mixed plan over all fields; state = reference value of every live object + partition of the objects by Arc identity; in every state every live object's settings snapshot is compared with the reference, and every live request is prepared and sent through a scripted world that makes each setting visible (redirect bound, header limit, proxy dialled, Accept-Encoding, default charset, timeouts handed to the dialler); plus the product {8 method constructors} x session allow_compression {untouched, true, false} x request allow_compression {untouched, true, false} x caller's own Accept-Encoding {none, on the session, on the request, session + appended on the request} x {prepared, sent}: gzip/deflate is announced exactly when compression is allowed, whatever the method, and with compression off the caller's values reach the request unchanged",
     );
     rep.assume("threads: every mutator takes &mut self or self and the crate has no unsafe code outside cfg(windows) (checked: see unsafe_blocks_in_repo_src), so concurrent use can only share an immutable Arc; interleavings at operation granularity are the explored sequential histories; the free-running thread run is a smoke test, not the deciding step");
     rep.assume("std::sync::Arc::make_mut is correct");
@@ -766,6 +868,15 @@ fn walk(dir: &str) -> Vec<String> {
 }
 
 pub fn replay(v: &serde_json::Value) -> i32 {
+    if v["case"]["method_cells"] == true {
+        let ctx = Ctx::new("C16", Tier::Quick);
+        method_cells(&ctx);
+        let vs = ctx.drain_violations();
+        for (v, n) in &vs {
+            println!("{}: {} ({n} cases)", v.signature, v.what);
+        }
+        return if vs.is_empty() { 0 } else { 1 };
+    }
     if v["case"]["threads"] == true {
         let ctx = Ctx::new("C16", Tier::Quick);
         let base = attohttpc::Session::new().verif_snapshot();
